@@ -22,7 +22,7 @@ from vlib import InfraError
 
 LEVEL = "model_checking"
 
-ACTIONS = ("Decide", "RouteWrite", "RouteQuery", "Attempt")
+ACTIONS = ("Decide", "RouteWrite", "RouteQuery", "Attempt", "Reconfig")
 
 
 def _tags():
@@ -58,13 +58,21 @@ def run(ctx):
         raise InfraError("negative control MC_retryswitch.cfg was not rejected by TLC")
     ctx.note("tlc_negative_control_retry", {"cfg": "MC_retryswitch.cfg", "violated": rs.violated})
 
+    # negative control 3: a router that keeps forwarding writes to the primary it remembers while that node
+    # is merely registry-healthy (re-registered as reader/compactor) must be rejected.
+    sp_ = ctx.tlc("routing", "Routing", "MC_stickyprimary.cfg", allow_violation=True, timeout=600, workers=2)
+    if not sp_.violated:
+        raise InfraError("negative control MC_stickyprimary.cfg was not rejected by TLC")
+    ctx.note("tlc_negative_control_sticky", {"cfg": "MC_stickyprimary.cfg", "violated": sp_.violated})
+
     gen = ctx.tlc("routing", "Routing", "Gen_%s.cfg" % size, timeout=1800, workers=4)
     if not gen.traces:
         raise InfraError("generator emitted nothing")
     scen = {}
     for t in gen.traces:
-        k = (tuple(t["nodes"]), t["ep"], t["hdr"])
-        s = scen.setdefault(k, {"nodes": t["nodes"], "ep": t["ep"], "hdr": t["hdr"], "allowed": []})
+        k = (tuple(t["nodes"]), t["ep"], t["hdr"], t["round"], t["r1proc"], t["chgnode"], t["chgtype"])
+        s = scen.setdefault(k, {"nodes": t["nodes"], "ep": t["ep"], "hdr": t["hdr"], "allowed": [], "round": t["round"],
+                                "r1proc": t["r1proc"], "chgnode": t["chgnode"], "chgtype": t["chgtype"]})
         o = {"outcome": t["outcome"], "proc": t["proc"], "hops": t["hops"]}
         if o not in s["allowed"]:
             s["allowed"].append(o)
@@ -82,12 +90,17 @@ def run(ctx):
         raise InfraError("routing driver: " + r["infra"])
     skipped_eps = {k.split(":")[0] for k in (r.get("skipped_endpoints") or {})}
     expect = sum(1 for s in scs if s["ep"] not in skipped_eps)
-    if r["scenarios"] != expect:
-        raise InfraError("driver replayed %d of %d scenarios" % (r["scenarios"], expect))
+    if r["scenarios"] + r.get("round2_unrealised", 0) != expect:
+        raise InfraError("driver replayed %d (+%d unrealised) of %d scenarios" % (r["scenarios"], r.get("round2_unrealised", 0), expect))
+    n2 = sum(1 for s in scs if s["round"] == 2 and s["ep"] not in skipped_eps)
+    if n2 and r.get("round2_scenarios", 0) < n2 * 0.8 and not r.get("violations"):
+        raise InfraError("only %d of %d two-request scenarios could be realised" % (r.get("round2_scenarios", 0), n2))
+    ctx.note("round2_scenarios_realised", r.get("round2_scenarios", 0))
+    ctx.note("round2_scenarios_unrealised", r.get("round2_unrealised", 0))
     if r["forwards"] == 0:
         raise InfraError("no request was forwarded: the binding is vacuous")
     ctx.count(evaluations=r["requests"],
-              nontrivial_keys=["%s|%s|%s" % (",".join(map(str, s["nodes"])), s["ep"], s["hdr"])
+              nontrivial_keys=["%s|%s|%s|%s:%s" % (",".join(map(str, s["nodes"])), s["ep"], s["hdr"], s["chgnode"], s["chgtype"])
                                for s in scs if s["ep"] not in skipped_eps
                                and any(a["outcome"] != "local" or a["hops"] > 0 for a in s["allowed"])])
     ctx.traces_validated(len(gen.traces))
